@@ -27,7 +27,7 @@ Base == { Obj("IBAN", T1, <<>>), Obj("IBAN", T1s, <<>>), Obj("IBAN", T2, <<>>), 
           Obj("BBAN", N1, DE), Obj("BBAN", N2, GB),
           Obj("str", T1, <<>>), Obj("str", B1, <<>>), Obj("str", N1, <<>>), Obj("str", <<90, 90>>, <<>>) }
 
-Ops == {"cmp", "hash", "dict", "sort", "props"}
+Ops == {"cmp", "hash", "dict", "sort", "props", "container"}
 
 VARIABLES a, b, op
 vars == <<a, b, op>>
